@@ -281,6 +281,8 @@ class Program:
         raise KeyError(f"class name {name} is ambiguous: {[c.qualname for c in cands]}")
 
     def func(self, qualname: str) -> FuncInfo:
+        if "@for:" in qualname:
+            return self.slice_for(qualname)
         if qualname in self.functions:
             return self.functions[qualname]
         # allow Class.method shorthand and bare module-level function names
@@ -305,6 +307,27 @@ class Program:
                     if q in self.functions:
                         return self.functions[q]
         raise KeyError(f"function {qualname} not found in source")
+
+
+def _slice_for(self, qualname: str) -> FuncInfo:
+    """'<function>@for:<target>' -> the body of the (unique) for-loop over <target> inside <function>, mechanically
+    extracted from the real AST as a pseudo-function (its `continue` statements end the slice)."""
+    base, target = qualname.split("@for:")
+    fi = self.func(base)
+    loops = [n for n in ast.walk(fi.node) if isinstance(n, ast.For) and isinstance(n.target, ast.Name) and n.target.id == target]
+    if len(loops) != 1:
+        raise KeyError(f"slice {qualname}: {len(loops)} matching loops")
+    loop = loops[0]
+    fn = ast.FunctionDef(name=f"{fi.node.name}__for_{target}", args=ast.arguments(
+        posonlyargs=[], args=[ast.arg(arg="self"), ast.arg(arg=target)], vararg=None, kwonlyargs=[], kw_defaults=[],
+        kwarg=None, defaults=[]), body=loop.body, decorator_list=[], returns=None, type_comment=None, type_params=[])
+    ast.copy_location(fn, loop)
+    ast.fix_missing_locations(fn)
+    out = FuncInfo(f"{fi.qualname}@for:{target}", fn, fi.module, fi.cls, "slice", [])
+    return out
+
+
+Program.slice_for = _slice_for
 
 
 def loops_of(fn: ast.FunctionDef):
